@@ -159,6 +159,7 @@ inline std::vector<std::string> gen_strings(Src &s, int nclass, bool thorough, G
   // kinds whose table-driven decoder only works on text-like input (KNOWN_FINDINGS F01-F03) are
   // mostly fed that family, so that they are still explored where they work
   if (prefer_textlike && s.byte() % 4 != 3) family = 9;
+  if (family == 7 && nclass < 5) family = 0;   // the big skewed text is a large-class shape
   if (const char *ff = getenv("VERIF_FAMILY")) family = atoi(ff);  // development aid
   int lo = n_lo[nclass], hi = n_hi[nclass];
   size_t n = lo + s.below(hi - lo + 1);
